@@ -118,6 +118,36 @@ func checkBound(log []admitEv, rs rateSpec) (ok bool, i0, j0 int, excess string)
 	return true, 0, 0, ""
 }
 
+type admitEvB struct {
+	t, amt, b int64 // ns since start, amount, burst in force at that admission
+}
+
+// checkBoundB: for all i<=j: sum(amount i..j) <= b_i + (tj-ti)*average/period + 1, b_i = burst in force at admission i.
+// Exact: [period*P_j - average*t_j] - [period*P_(i-1) - average*t_i + period*b_i] <= period.
+func checkBoundB(log []admitEvB, rs rateSpec) (ok bool, i0, j0 int, excess string) {
+	per := big.NewInt(int64(rs.Period))
+	avg := big.NewInt(rs.Average)
+	var minV *big.Int
+	minI := 0
+	var prefix int64
+	for j, e := range log {
+		vi := new(big.Int).Sub(new(big.Int).Mul(per, big.NewInt(prefix)), new(big.Int).Mul(avg, big.NewInt(e.t)))
+		vi.Add(vi, new(big.Int).Mul(per, big.NewInt(e.b)))
+		if minV == nil || vi.Cmp(minV) < 0 {
+			minV = vi
+			minI = j
+		}
+		prefix += e.amt
+		vj := new(big.Int).Sub(new(big.Int).Mul(per, big.NewInt(prefix)), new(big.Int).Mul(avg, big.NewInt(e.t)))
+		d := new(big.Int).Sub(vj, minV)
+		if d.Cmp(per) > 0 {
+			ex := new(big.Rat).SetFrac(new(big.Int).Sub(d, per), per)
+			return false, minI, j, ex.FloatString(3)
+		}
+	}
+	return true, 0, 0, ""
+}
+
 type c03Req struct {
 	dt  time.Duration
 	src int
@@ -432,6 +462,11 @@ func c03Reconfig(c *Ctx) {
 			return
 		}
 		epochs := 2 + r.IntN(3)
+		// admissions per source and period across epochs, for as long as the average of that period has not changed
+		xlogs := make([]map[time.Duration][]admitEvB, nsrc)
+		for s := range xlogs {
+			xlogs[s] = map[time.Duration][]admitEvB{}
+		}
 		var addedLong, oldTTL time.Duration
 		var epochRates [][]rateSpec
 		nontrivial := 0
@@ -439,26 +474,38 @@ func c03Reconfig(c *Ctx) {
 			if e > 0 {
 				// change the set in place
 				rs2 := make([]rateSpec, len(rs))
+				burstOnly := r.IntN(2) == 0 // only the bursts change: the refill rate, and with it the accrued budget, carries over
 				for k, x := range rs {
 					avg := int64(1 + r.IntN(20))
 					if r.IntN(2) == 0 && x.Average > 1 { // tighten
 						avg = 1 + r.Int64N(x.Average)
 					}
+					if burstOnly {
+						avg = x.Average
+					}
 					rs2[k] = rateSpec{x.Period, avg, 1 + r.Int64N(5*avg)}
+					if avg != x.Average {
+						for s := range xlogs {
+							delete(xlogs[s], x.Period)
+						}
+					}
 				}
-				if len(rs2) < 3 && r.IntN(3) == 0 { // a further period
+				if burstOnly {
+					c.Count("burst_only_reconfigurations", 1)
+				}
+				if !burstOnly && len(rs2) < 3 && r.IntN(3) == 0 { // a further period
 					p := pick(r, []time.Duration{3 * time.Second, 7 * time.Second, 30 * time.Second, 10 * time.Minute, time.Hour})
 					avg := int64(1 + r.IntN(10))
 					if p >= 10*time.Minute {
 						avg = int64(1 + r.IntN(3))
 					}
-					oldTTL = rateTTL(rs2)
-					addedLong = p
 					dup := false
 					for _, x := range rs2 {
 						dup = dup || x.Period == p
 					}
 					if !dup {
+						oldTTL = rateTTL(rs2)
+						addedLong = p
 						rs2 = append(rs2, rateSpec{p, avg, 1 + r.Int64N(5*avg)})
 					}
 				}
@@ -515,6 +562,9 @@ func c03Reconfig(c *Ctx) {
 				if admitted == before+1 {
 					admittedN++
 					logs[q.src] = append(logs[q.src], admitEv{int64(now().Sub(epochStart)), q.amt})
+					for _, x := range rs {
+						xlogs[q.src][x.Period] = append(xlogs[q.src][x.Period], admitEvB{int64(now().Sub(start)), q.amt, x.Burst})
+					}
 					if q.amt > minBurst {
 						c.Violation("reconfig/over-burst-admitted", sfmt("epoch %d, rates in force %v (history of rate sets %v): a request of amount %d, larger than the burst, was admitted", e, rs, epochRates, q.amt), map[string]any{"epoch_rates": epochRates, "via_extractor": viaExtract})
 						return
@@ -537,6 +587,18 @@ func c03Reconfig(c *Ctx) {
 						return
 					}
 					c.Count("intervals_checked_end_points", int64(len(logs[s])))
+				}
+			}
+			// across changes that leave a period's average alone, what a source holds carries over (capped by the new burst):
+			// from any admission on, at most the burst in force at that moment plus the refill since then (+1)
+			for s := 0; s < nsrc; s++ {
+				for _, x := range rs {
+					if ok, i0, j0, ex := checkBoundB(xlogs[s][x.Period], x); !ok {
+						lg := xlogs[s][x.Period]
+						c.Violation("reconfig/bound-exceeded-across-burst-change", sfmt("history of rate sets %v: source s%d, period %v (average %d throughout): from the admission at %v (burst in force %d) to the one at %v the source was admitted more than that burst + the refill in between + 1, by %s: a re-configuration handed it fresh budget", epochRates, s, x.Period, x.Average, time.Duration(lg[i0].t), lg[i0].b, time.Duration(lg[j0].t), ex),
+							map[string]any{"epoch_rates": epochRates, "via_extractor": viaExtract, "sources": nsrc})
+						return
+					}
 				}
 			}
 			if e > 0 && rejected > 0 && admittedN > 0 {
